@@ -165,7 +165,7 @@ class Cmp:
             self.bad.append("%s %s" % (what, detail))
 
 
-def check_function(c, o, f, ctor_superset=False):
+def check_function(c, o, f, ctor_superset=False, group=None):
     if getattr(f, "via_casts", False):
         # a typecast operator: interrogate's label for it is not an objective fact; it is
         # found through the cast list of its class
@@ -181,7 +181,8 @@ def check_function(c, o, f, ctor_superset=False):
         c.ok("function %s" % f.scoped(), False, "has %d records in the database" % len(recs))
         return
     _, r = recs[0]
-    c.eq("roles of %s" % f.scoped(), sorted(f.roles()), sorted(roles_of(r["flags"])))
+    free = set(getattr(f, "free_roles", ()))
+    c.eq("roles of %s" % f.scoped(), sorted(f.roles() - free), sorted(roles_of(r["flags"]) - free))
     c.eq("class of %s" % f.scoped(), f.cls, o.tname(r["class"]) if r["class"] else None)
     if not getattr(f, "via_casts", False):
         c.eq("name of %s" % f.scoped(), f.scoped().split("::")[-1], r["name"])
@@ -190,9 +191,10 @@ def check_function(c, o, f, ctor_superset=False):
     if getattr(f, "dtor", False):
         return            # whether a back-end wraps the destructor is its own business
     exp = []
-    for ps, rt, managed in f.wrappers(o.backend):
-        has_ret = rt != ("atomic", "void", ())
-        exp.append((ps, rt, managed, has_ret))
+    for g in (group or [f]):
+        for ps, rt, managed in g.wrappers(o.backend):
+            has_ret = rt != ("atomic", "void", ())
+            exp.append((ps, rt, managed, has_ret))
     got = o.wrappers_of(r)
     rest = list(got)
     for e in exp:
@@ -202,7 +204,7 @@ def check_function(c, o, f, ctor_superset=False):
         else:
             c.ok("wrapper of %s" % f.scoped(), False,
                  "expected %r not among the recorded wrappers %r" % (e, got))
-    if rest and not f.ctor:
+    if rest and not f.ctor and not getattr(f, "shared", False):
         c.ok("wrappers of %s" % f.scoped(), False, "unexpected extra wrapper records %r" % (rest,))
 
 
@@ -502,8 +504,13 @@ def judge(atom, o, cidx, same_ptr):
             raise HarnessError("g++ probe has no answer for member atom %s" % (e,))
     else:
         tr = atom.truth()
+    # overloads of one name (and the same unary-ness) share one function record: their
+    # wrappers are compared as one set
+    groups = {}
     for f in tr.get("functions", ()):
-        check_function(c, o, f)
+        groups.setdefault((f.scoped(), "unary_op" in f.roles()), []).append(f)
+    for fs in groups.values():
+        check_function(c, o, fs[0], group=fs)
     for d in tr.get("classes", ()):
         check_class(c, o, d)
     for d in tr.get("enums", ()):
@@ -527,6 +534,8 @@ def judge(atom, o, cidx, same_ptr):
     for cls, fname in tr.get("reach", ()):
         c.ok("published method %s of %s" % (fname, cls), reachable(o, cls, fname),
              "is recorded neither for the class nor for any base class the database lists for it")
+    for scoped, n in tr.get("record_count", {}).items():
+        c.eq("number of function records named %s" % scoped, n, len(o.fn.get(scoped, [])))
     if tr.get("unary_binary_split"):
         fs = tr["functions"]
         c.ok("unary and binary %s" % fs[0].scoped(), len(o.fn.get(fs[0].scoped(), [])) == 2,
